@@ -481,7 +481,8 @@ func literalSpellings(k int) []litSpelling {
 	type piece struct{ src, val string }
 	plain := []piece{{"a", "a"}, {"é", "é"}, {"\U0001F600"[0:0] + "😀", "😀"}, {" ", " "}, {"{", "{"}, {"]", "]"}, {"/", "/"}, {"i", "i"}}
 	esc := []piece{{`\a`, "\a"}, {`\b`, "\b"}, {`\n`, "\n"}, {`\f`, "\f"}, {`\r`, "\r"}, {`\t`, "\t"}, {`\v`, "\v"}, {`\\`, "\\"},
-		{`\101`, "A"}, {`\000`, "\x00"}, {`\x41`, "A"}, {`\x7F`, "\x7f"}, {`\u00e9`, "é"}, {`\u00E9`, "é"}, {`\U0001F600`, "😀"}, {`\uFFFD`, "\uFFFD"}}
+		{`\101`, "A"}, {`\000`, "\x00"}, {`\x41`, "A"}, {`\x7F`, "\x7f"}, {`\u00e9`, "é"}, {`\u00E9`, "é"}, {`\U0001F600`, "😀"}, {`\uFFFD`, "\uFFFD"},
+		{`\U0010FFFF`, "\U0010FFFF"}, {`\U0010ffff`, "\U0010FFFF"}, {`\uFFFF`, "\uFFFF"}, {`\U00010000`, "\U00010000"}, {`\u0001`, "\x01"}, {`\uD7FF`, "\uD7FF"}, {`\uE000`, "\uE000"}, {`\377`, "\xff"}, {`\xff`, "\xff"}}
 	var out []litSpelling
 	build := func(quote string, pieces []piece) {
 		var rec func(n int, src, val string)
@@ -499,7 +500,8 @@ func literalSpellings(k int) []litSpelling {
 	dq := append(append([]piece{}, plain...), esc...)
 	dq = append(dq, piece{`\"`, `"`}, piece{"'", "'"}, piece{"`", "`"})
 	build(`"`, dq)
-	raw := append(append([]piece{}, plain...), piece{`\`, `\`}, piece{`\n`, `\n`}, piece{`"`, `"`}, piece{"'", "'"}, piece{"\n", "\n"})
+	raw := append(append([]piece{}, plain...), piece{`\`, `\`}, piece{`\n`, `\n`}, piece{`"`, `"`}, piece{"'", "'"}, piece{"\n", "\n"},
+		piece{"\r", ""}, piece{"\r\n", "\n"}) // carriage returns inside raw strings are discarded (Go semantics)
 	build("`", raw)
 	// single quotes hold exactly one character
 	sq := append(append([]piece{}, plain...), esc...)
@@ -560,7 +562,7 @@ func classSpellings(k int) []classSpelling {
 		plain bool   // written as itself (a plain '-' can be a range operator, a plain '^' the inversion mark)
 	}
 	pieces := []piece{{"a", 'a', "", true}, {"d", 'd', "", true}, {"-", '-', "", true}, {"^", '^', "", true}, {"é", 'é', "", true}, {`\t`, '\t', "", false}, {`\]`, ']', "", false},
-		{`\\`, '\\', "", false}, {`\x2d`, '-', "", false}, {`\x5e`, '^', "", false}, {`\101`, 'A', "", false}, {`\u00e9`, 'é', "", false}, {`\pL`, 0, "L", false}, {`\p{Nd}`, 0, "Nd", false}}
+		{`\\`, '\\', "", false}, {`\x2d`, '-', "", false}, {`\x5e`, '^', "", false}, {`\101`, 'A', "", false}, {`\u00e9`, 'é', "", false}, {`\U0010FFFF`, 0x10FFFF, "", false}, {`\uFFFF`, 0xFFFF, "", false}, {`\pL`, 0, "L", false}, {`\p{Nd}`, 0, "Nd", false}}
 	var out []classSpelling
 	var rec func(ps []piece)
 	denote := func(ps []piece) classSpelling {
